@@ -551,6 +551,211 @@ def replay(ctx):
     return dict(violations=viol, known=[], coverage=dict(evaluations=len(sels), rule="replay of one stored case", samples=[], distinct_nontrivial=0))
 
 
+# ------------------------------------------------------------------ side obligation: C09 model vs the I/O program on a file image
+
+REFINE_SIZES = [1, 2, 4, 8, 1, 2, 4, 8, 4, 8]        # FileImage.dtype_of_code
+REFINE_SUPPORTED = [2, 3, 6, 7, 8, 9]                # element sizes 4 and 8 (dataset_read_hyperslab.go:385)
+REFINE_KINDS = [  # (kind, rank or None = random 1..4); 34 of 52 are valid selections on a supported datatype
+    ("valid-strided-blocked", 2), ("valid-strided-blocked", 3), ("valid-strided-blocked", 1), ("valid-strided-blocked", 4),
+    ("valid-strided-blocked", None), ("valid-overlapping-blocks", 1), ("valid-overlapping-blocks", 2),
+    ("valid-overlapping-blocks", 3), ("valid-single-element", None), ("valid-single-element", None),
+    ("valid-full-extent", 1), ("valid-full-extent", 2), ("valid-full-extent", 3), ("valid-full-extent", 4),
+    ("valid-full-rows", 2), ("valid-full-rows", 3), ("valid-full-rows", 4), ("valid-row-prefix", 2), ("valid-row-prefix", 3),
+    ("valid-nil-stride-block", 2), ("valid-nil-stride-block", 3), ("valid-nil-stride-block", 1),
+    ("valid-random", 1), ("valid-random", 2), ("valid-random", 2), ("valid-random", 3), ("valid-random", 4), ("valid-random", None),
+    ("slice-valid", 2), ("slice-valid", 3), ("slice-valid", 1), ("slice-valid", None), ("slice-full", 2), ("slice-last", None),
+    ("slice-count0", None), ("slice-count0", 2), ("slice-oob", None), ("slice-oob", 2), ("slice-near-2^64", None),
+    ("slice-wrong-rank", None),
+    ("small-type", 2), ("small-type", 1), ("small-type", 3), ("small-type-slice", 2),
+    ("oob-start", None), ("count0", None), ("count-too-large", None), ("block-too-large", None),
+    ("wrong-rank-short", None), ("wrong-rank-long", None), ("near-2^64", None), ("near-2^64", 2),
+]
+
+
+def refine_dims(rng, rank, need=1):
+    """Extents >= 1 with product <= 60; at least one extent >= need."""
+    maxd = {1: 40, 2: 9, 3: 5, 4: 3}[rank]
+    while True:
+        dims = [rng.randint(1, maxd) for _ in range(rank)]
+        n = 1
+        for d in dims:
+            n *= d
+        if n <= 60 and max(dims) >= min(need, maxd):
+            return dims
+
+
+def refine_case(rng, kind, rank):
+    """-> (code, dims, sel) of one guard case."""
+    rank = rank or rng.choice([1, 2, 2, 3, 3, 4])
+    code = rng.choice(REFINE_SUPPORTED)
+    dims = refine_dims(rng, rank, need=4 if kind in ("valid-strided-blocked", "valid-overlapping-blocks") else 2)
+    big = max(range(rank), key=lambda k: dims[k])
+    axes = [random_valid_axis(rng, d) for d in dims]
+    if kind == "valid-strided-blocked":
+        d = dims[big]
+        b = 2 if d >= 5 else 1
+        st = rng.randint(b + 1, d - b)
+        c = rng.randint(2, (d - b) // st + 1)
+        axes[big] = (rng.randint(0, d - ((c - 1) * st + b)), c, st, b)
+        sel = mk("hyperslab", axes)
+    elif kind == "valid-overlapping-blocks":
+        d = dims[big]
+        b = rng.randint(2, d - 1)
+        st = rng.randint(1, min(b - 1, d - b))
+        c = rng.randint(2, (d - b) // st + 1)
+        axes[big] = (rng.randint(0, d - ((c - 1) * st + b)), c, st, b)
+        sel = mk("hyperslab", axes)
+    elif kind == "valid-single-element":
+        sel = mk("hyperslab", [(rng.randrange(d), 1, rng.choice([1, 2, 7]), 1) for d in dims], nil_defaults=rng.random() < 0.5)
+    elif kind == "valid-full-extent":
+        sel = mk("hyperslab", [(0, d, 1, 1) if rng.random() < 0.5 else (0, 1, rng.choice([1, d]), d) for d in dims])
+    elif kind == "valid-full-rows":          # some rows of the first dimension, every other dimension complete: one run
+        c = rng.randint(1, dims[0])
+        sel = mk("hyperslab", [(rng.randint(0, dims[0] - c), c, 1, 1)] + [(0, d, 1, 1) for d in dims[1:]], nil_defaults=True)
+    elif kind == "valid-row-prefix":         # one index in the leading dimensions, a piece of the last one: one run
+        b = rng.randint(1, dims[-1])
+        sel = mk("hyperslab", [(rng.randrange(d), 1, 1, 1) for d in dims[:-1]] + [(rng.randint(0, dims[-1] - b), 1, 1, b)])
+    elif kind == "valid-nil-stride-block":
+        sa = []
+        for d in dims:
+            c = rng.randint(1, d)
+            sa.append((rng.randint(0, d - c), c, 1, 1))
+        sel = mk("hyperslab", sa)
+        sel["stride"] = None
+        if rng.random() < 0.7:
+            sel["block"] = None
+    elif kind == "valid-random":
+        sel = mk("hyperslab", axes, nil_defaults=rng.random() < 0.3)
+    elif kind in ("slice-valid", "small-type-slice"):
+        sa = []
+        for d in dims:
+            c = rng.randint(1, d)
+            sa.append((rng.randint(0, d - c), c, 1, 1))
+        sel = mk("slice", sa)
+    elif kind == "slice-full":
+        sel = mk("slice", [(0, d, 1, 1) for d in dims])
+    elif kind == "slice-last":
+        sel = mk("slice", [(d - 1, 1, 1, 1) for d in dims])
+    elif kind == "slice-count0":
+        sa = [(rng.randint(0, d - 1), 1, 1, 1) for d in dims]
+        k = rng.randrange(rank)
+        sa[k] = (rng.choice([0, dims[k], sa[k][0]]), 0, 1, 1)
+        sel = mk("slice", sa)
+    elif kind == "slice-oob":
+        sa = [(rng.randint(0, d - 1), 1, 1, 1) for d in dims]
+        k = rng.randrange(rank)
+        sa[k] = rng.choice([(dims[k], 1, 1, 1), (dims[k] + 1, 0, 1, 1), (sa[k][0], dims[k] - sa[k][0] + 1, 1, 1), (0, dims[k] + 1, 1, 1)])
+        sel = mk("slice", sa)
+    elif kind == "slice-near-2^64":
+        sa = [(rng.randint(0, d - 1), 1, 1, 1) for d in dims]
+        k = rng.randrange(rank)
+        sa[k] = rng.choice([(M64, 2, 1, 1), (2, M64, 1, 1), (M64, 1, 1, 1), (2 ** 63, 2 ** 63, 1, 1), (1, M64, 1, 1)])
+        sel = mk("slice", sa)
+    elif kind == "slice-wrong-rank":
+        sel = mk("slice", [(0, 1, 1, 1) for d in dims])
+        fld = rng.choice(["start", "count"])
+        sel[fld] = sel[fld] + [1] if rng.random() < 0.5 else sel[fld][:-1]
+    elif kind == "small-type":
+        sel = mk("hyperslab", axes)
+    else:
+        a = [list(x) for x in axes]
+        k = rng.randrange(rank)
+        s, c, st, b = a[k]
+        room = dims[k] - (s + (c - 1) * st + b)
+        if kind == "oob-start":
+            a[k][0] = rng.choice([s + room + 1, dims[k], dims[k] + 3])
+        elif kind == "count0":
+            a[k][rng.choice([1, 1, 2, 3])] = 0
+        elif kind == "count-too-large":
+            a[k][1] = c + room // st + 1
+        elif kind == "block-too-large":
+            a[k][3] = b + room + 1
+        elif kind == "near-2^64":
+            which = rng.randrange(5)
+            if which == 0:
+                a[k] = [M64, 2, 1, 1]                     # start + (count-1)*stride wraps to 0
+            elif which == 1:
+                a[k] = [1, 2, M64, 1]
+            elif which == 2:
+                a[k] = [0, 2 ** 63, 2, 1]                 # (count-1)*stride + block wraps
+            else:
+                a[k][rng.randrange(4)] = rng.choice(OVERFLOW_POOL)
+        sel = mk("hyperslab", [tuple(x) for x in a])
+        if kind.startswith("wrong-rank"):
+            fld = rng.choice(["start", "count", "stride", "block"])
+            sel[fld] = sel[fld] + [1] if kind.endswith("long") else sel[fld][:-1]
+    if kind.startswith("small-type"):
+        code = rng.choice([0, 1, 4, 5])
+    elif not kind.startswith("valid") and not kind.startswith("slice-valid"):
+        code = rng.randrange(10)
+    return code, dims, sel
+
+
+def refine_term(case):
+    code, dims, hexdata, sel = case["code"], case["dims"], case["data"], case["sel"]
+    return '(%d, %s, "%s"%%string, (%s, %s, %s, %s), %s)' % (
+        code, cl(dims), hexdata, cl(sel["start"]), cl(sel["count"]), cl(sel["stride"] or []), cl(sel["block"] or []),
+        "true" if sel["api"] == "slice" else "false")
+
+
+def refine_guard(ctx):
+    """Side obligation: Model/Hyperslab.v (element level, the model of the tie above) and Model/IOProgSlice.v (the same Go
+    function as an I/O program over the bytes of the file) are run inside Coq on the same generated whole-file images
+    (Model.SliceRefine.refine_case_ok); any disagreement is reported.  -> (violations, coverage entry)"""
+    rng = ctx.rng
+    t0 = time.time()
+    cases, kinds, paths, by_rank, codes = [], collections.Counter(), collections.Counter(), collections.Counter(), collections.Counter()
+    accepted = accepted_supported = 0
+    for i, (kind, rank) in enumerate(REFINE_KINDS):
+        code, dims, sel = refine_case(rng, kind, rank)
+        if i < 10 and kind.startswith("valid"):
+            code = (REFINE_SUPPORTED + REFINE_SUPPORTED)[i]           # every supported datatype at least once
+        if kind.startswith("small-type"):
+            code = [0, 1, 4, 5][kinds["small-type"] + kinds["small-type-slice"]]    # every refused element size (1, 2)
+        n = 1
+        for d in dims:
+            n *= d
+        data = bytes(rng.randrange(256) for _ in range(n * REFINE_SIZES[code])).hex()
+        ok = slice_valid(sel, dims) if sel["api"] == "slice" else hyperslab_valid(sel, dims)     # exact integers
+        case = dict(kind=kind, code=code, dims=dims, data=data, sel=sel, valid=ok)
+        kinds[kind] += 1
+        by_rank[str(len(dims))] += 1
+        codes[str(code)] += 1
+        if ok:
+            accepted += 1
+            if REFINE_SIZES[code] in (4, 8):
+                accepted_supported += 1
+                paths[path_of(dict(layout="contiguous", dims=dims), sel)] += 1
+        cases.append(case)
+    text = ("From HV Require Import Base.Prelude Model.SliceRefine.\n"
+            "Definition cases : list (N * list N * string * (list N * list N * list N * list N) * bool) := [\n%s].\n"
+            "Definition R := Eval vm_compute in refine_mismatches cases.\nPrint R.\n"
+            % ";\n".join(refine_term(c) for c in cases))
+    t1 = time.time()
+    out = vlib.coq_eval(text, "c09refine")
+    t_coq = time.time() - t1
+    bad = vlib.parse_nlist(out, "R")
+    viol = []
+    for i in bad[:5]:
+        c = cases[i]
+        viol.append(dict(what="C09 model and ReadSlice/ReadHyperslab I/O program disagree on a whole-file image",
+                         case=dict(index=i, kind=c["kind"], code=c["code"], dims=c["dims"], data=c["data"], selection=jsel(c["sel"]),
+                                   valid_over_unbounded_integers=c["valid"], coq_term=refine_term(c)),
+                         nofail=True,
+                         correspondence="Model.SliceRefine.refine_case_ok: Hyperslab.read_hyperslab vs IOProgSlice.api_read_hyperslab on image_v2"))
+    need = ("contiguous-single-read", "contiguous-2d-elementwise", "contiguous-selection-run")
+    if 3 * accepted_supported < len(cases) or any(paths[p] == 0 for p in need) or any(codes[str(k)] == 0 for k in range(10)):
+        viol.append(dict(what="C09 refine_guard: the generated cases do not cover what the guard promises (a third valid, three contiguous paths, every datatype)",
+                         case=dict(accepted_supported=accepted_supported, cases=len(cases), paths=dict(paths), codes=dict(codes)), nofail=True,
+                         correspondence="tools/props/c09.py refine_guard generator"))
+    cov = dict(cases=len(cases), mismatches=len(bad), seconds=dict(coqc=round(t_coq, 2), total=round(time.time() - t0, 2)),
+               kinds=dict(kinds), accepted=accepted, accepted_on_supported_datatype=accepted_supported,
+               paths_of_accepted=dict(paths), by_rank=dict(by_rank), by_datatype_code=dict(sorted(codes.items())),
+               rule="one case = one image_v2 file (random bytes as data) + one ReadHyperslab/ReadSlice call, both models evaluated by coqc "
+                    "(Model.SliceRefine.refine_mismatches); accepted = the selection is valid over unbounded integers (Python)")
+    return viol, cov
+
+
 def run(ctx):
     if getattr(ctx, "replay", None):
         return replay(ctx)
@@ -715,6 +920,10 @@ def run(ctx):
             viol.append(dict(what="Coq specification spec_call and the Python oracle disagree on an observation (check machinery)",
                              case=fi, impl=obs, nofail=True, correspondence="Model.HyperslabTie.spec_call vs tools/props/c09.py oracle"))
     t_coq = time.time() - t1
+    # ---- side obligation: the element-level model against the I/O program on whole-file images (drawn last from ctx.rng,
+    #      so the cases above do not depend on it)
+    rg_viol, rg_cov = refine_guard(ctx)
+    viol.extend(rg_viol)
     known = []
     for cls, cnt in sorted(known_hits.items()):
         known.append("%s: %d selections of the class reproduce (%s) witness=%s" % (
@@ -731,5 +940,6 @@ def run(ctx):
         programs=ndatasets, disagreements_checked=evaluations,
         samples=samples[:6], seconds=dict(go=round(t_go, 1), coq=round(t_coq, 1), total=round(time.time() - t0, 1)),
         exhaustive="all selections with every extent <= %s" % ("5 (rank <= 3)" if tier == "thorough" else "4 (rank <= 2), <= 3 (rank 3)"),
+        refine_guard=rg_cov,
     )
     return dict(violations=viol, known=known, coverage=cov)
